@@ -236,6 +236,21 @@ def hist_state(h):
     return (False, False, None)
 
 
+def expanded_ops(case):
+    """[(index of the original op, op)]: a `boot` (the real Scheduler.Start at wall-clock instant w, stopped after its
+    immediate first tick) is, for the property and for the model, a daemon restart followed by the tick of the minute
+    the boot falls into, executed at w."""
+    out = []
+    for i, op in enumerate(case["ops"]):
+        if op["op"] == "boot":
+            out.append((i, {"op": "restart", "calls": [], "alive": op.get("alive", True), "synced": True}))
+            out.append((i, {"op": "tick", "m": op["wall"] // 60, "wall": op["wall"], "calls": op.get("calls", []),
+                            "alive": op.get("alive", True), "synced": True}))
+        else:
+            out.append((i, op))
+    return out
+
+
 def monitor_seq(case):
     """Evaluates the property on what the implementation did.  Returns a list of
     dict(op index, file, what, cls) - one per violated clause."""
@@ -256,7 +271,7 @@ def monitor_seq(case):
                 if j["panic"]:
                     panic_seen = j["panic"]
 
-    for i, op in enumerate(case["ops"]):
+    for i, op in expanded_ops(case):
         o = op["op"]
         if o == "restart":
             up = True
@@ -450,9 +465,10 @@ CALLC = {"start": "CStart", "stop": "CStop", "restart": "CRestart"}
 
 def coq_seq(case):
     files = clist(["(%s, %s)" % (cstring(f["name"]), coq_content(f["c"])) for f in (case.get("files") or [])])
-    ops = clist([coq_op(o) for o in case["ops"]])
+    xs = [o for _, o in expanded_ops(case)]
+    ops = clist([coq_op(o) for o in xs])
     obs = clist(["(%s, %s)" % (clist(["%s %s" % (CALLC[k], cstring(f)) for k, f in o["calls"]]),
-                               "true" if o["alive"] else "false") for o in case["ops"]])
+                               "true" if o["alive"] else "false") for o in xs])
     return "(%s,\n  %s,\n  %s)" % (files, ops, obs)
 
 
